@@ -109,14 +109,6 @@ theorem check_int_valid (E : Ext) (C : CExt) (us : List CUnion) (env : Env) (cls
     (hp : pyOfStored us (.int cls mn mx) lit = some v) :
     validate E env vt v = .ok v := by
   cases lit <;> simp [check, invalid] at hc
-  · -- bool
-    rename_i b
-    obtain ⟨lo, hi, hb, h1, h2⟩ := checkIntVal_ok hc
-    simp [pyOfStored] at hp
-    subst hp
-    simp [validatorOf, hb] at hv
-    subst hv
-    cases b <;> simp [validate, PTy.flags, intOf] at h1 h2 ⊢ <;> omega
   · rename_i n
     obtain ⟨lo, hi, hb, h1, h2⟩ := checkIntVal_ok hc
     simp [pyOfStored] at hp
@@ -153,26 +145,15 @@ theorem check_float_valid (E : Ext) (C : CExt) (us : List CUnion) (env : Env) (c
     (hc : check E C us (.float cls mn mx) lit = .ok ()) (hv : validatorOf (.float cls mn mx) = some vt)
     (hp : pyOfStored us (.float cls mn mx) lit = some v) :
     ∃ x, fltOf E v = some (some x) ∧ validate E env vt v = .ok (.flt x) := by
-  cases lit <;> simp [check] at hc
-  · -- bool literal
-    rename_i b
-    cases hx : E.fltOfInt (if b = true then 1 else 0) with
-    | none => simp [hx] at hc
-    | some x =>
-      simp [hx] at hc
-      obtain ⟨tlo, thi, hb, h1, h2, h3, h4⟩ := checkFloatVal_ok hc
-      simp [pyOfStored] at hp
-      subst hp
-      simp [validatorOf, hb] at hv
-      subst hv
-      refine ⟨x, by simp [fltOf, hx], ?_⟩
-      exact validate_float_ok E env cls _ _ _ x (by simp [fltOf, hx]) h1 h2 h3 h4
+  cases lit <;> simp [check, invalid] at hc
   · -- integer literal
     rename_i n
     cases hx : E.fltOfInt n with
     | none => simp [hx] at hc
     | some x =>
-      simp [hx] at hc
+      simp only [hx] at hc
+      split at hc
+      case isFalse => simp [invalid] at hc
       obtain ⟨tlo, thi, hb, h1, h2, h3, h4⟩ := checkFloatVal_ok hc
       simp [pyOfStored] at hp
       subst hp
@@ -192,7 +173,6 @@ theorem check_float_valid (E : Ext) (C : CExt) (us : List CUnion) (env : Env) (c
 
 theorem check_str_valid (E : Ext) (C : CExt) (us : List CUnion) (env : Env) (a b : Option Nat) (p : Option String)
     (lit : Lit) (v : PyVal)
-    (hpat : ∀ q s, p = some q → C.prefixMatch q s = true → E.patMatch q s = true)
     (hc : check E C us (.str a b p) lit = .ok ()) (hp : pyOfStored us (.str a b p) lit = some v) :
     validate E env (.str {} a b p) v = .ok v := by
   cases lit <;> simp only [check] at hc <;> (try simp at hc)
@@ -206,7 +186,7 @@ theorem check_str_valid (E : Ext) (C : CExt) (us : List CUnion) (env : Env) (a b
     simp at hc
     simp [validate, PTy.flags, hge, hle]
     intro hq hm
-    have := hpat q s rfl (hc hq)
+    have := hc hq
     simp [this] at hm
 
 theorem check_void_valid (E : Ext) (C : CExt) (us : List CUnion) (env : Env) (lit : Lit) (v : PyVal)
@@ -309,47 +289,44 @@ theorem acceptedAs_refl (E : Ext) (v : PyVal) : acceptedAs E v v := Or.inl rfl
 
 /-- Every literal that `data_type.check` accepts is a value the validator generated for that type accepts
 (and returns unchanged, a number in a float position as the float), provided the type involves no
-Timestamp / Bytes and the compile-time pattern test implies the runtime one. -/
+Timestamp / Bytes (the compile-time pattern test is the runtime one since the repair of String.check). -/
 theorem check_valid (E : Ext) (C : CExt) (us : List CUnion) (env : Env) (hU : unionsAgree us env = true) :
     ∀ (t : IrTy) (lit : Lit) (vt : PTy) (v : PyVal),
       noTextual t = true →
-      (∀ p s, patternOf t = some p → C.prefixMatch p s = true → E.patMatch p s = true) →
       check E C us t lit = .ok () → validatorOf t = some vt → pyOfStored us t lit = some v →
       ∃ v', validate E env vt v = .ok v' ∧ acceptedAs E v v' := by
   intro t
   induction t with
   | bool =>
-    intro lit vt v _ _ hc hv hp
+    intro lit vt v _ hc hv hp
     simp [validatorOf] at hv; subst hv
     exact ⟨v, check_bool_valid E C us env lit v hc hp, acceptedAs_refl E v⟩
   | int cls mn mx =>
-    intro lit vt v _ _ hc hv hp
+    intro lit vt v _ hc hv hp
     exact ⟨v, check_int_valid E C us env cls mn mx lit vt v hc hv hp, acceptedAs_refl E v⟩
   | float cls mn mx =>
-    intro lit vt v _ _ hc hv hp
+    intro lit vt v _ hc hv hp
     obtain ⟨x, hx, hval⟩ := check_float_valid E C us env cls mn mx lit vt v hc hv hp
     exact ⟨.flt x, hval, Or.inr ⟨x, hx, rfl⟩⟩
   | str a b p =>
-    intro lit vt v _ hpat hc hv hp
+    intro lit vt v _ hc hv hp
     simp [validatorOf] at hv; subst hv
-    refine ⟨v, check_str_valid E C us env a b p lit v ?_ hc hp, acceptedAs_refl E v⟩
-    intro q s hq
-    exact hpat q s (by simp [patternOf, hq])
+    exact ⟨v, check_str_valid E C us env a b p lit v hc hp, acceptedAs_refl E v⟩
   | bytes => intro lit vt v hn; simp [noTextual] at hn
   | ts f => intro lit vt v hn; simp [noTextual] at hn
   | void =>
-    intro lit vt v _ _ hc hv hp
+    intro lit vt v _ hc hv hp
     simp [validatorOf] at hv; subst hv
     exact ⟨v, check_void_valid E C us env lit v hc hp, acceptedAs_refl E v⟩
-  | list t a b _ => intro lit vt v _ _ hc; simp [check] at hc
-  | map k w _ _ => intro lit vt v _ _ hc; simp [check] at hc
-  | struct c s => intro lit vt v _ _ hc; simp [check] at hc
+  | list t a b _ => intro lit vt v _ hc; simp [check] at hc
+  | map k w _ _ => intro lit vt v _ hc; simp [check] at hc
+  | struct c s => intro lit vt v _ hc; simp [check] at hc
   | union cls =>
-    intro lit vt v _ _ hc hv hp
+    intro lit vt v _ hc hv hp
     simp [validatorOf] at hv; subst hv
     exact ⟨v, (check_union_valid E C us env hU cls lit v hc hp).1, acceptedAs_refl E v⟩
   | nullable t ih =>
-    intro lit vt v hn hpat hc hv hp
+    intro lit vt v hn hc hv hp
     -- the validator: the inner one with the nullable flag
     simp only [validatorOf] at hv
     cases hvt : validatorOf t with
@@ -372,8 +349,7 @@ theorem check_valid (E : Ext) (C : CExt) (us : List CUnion) (env : Env) (hU : un
         have hnt : ∀ tag, lit ≠ .tagref tag := by
           intro tag h; subst h; simp [pyOfStored, unionOfTy] at hp
         have hp' : pyOfStored us t lit = some v := by rw [← hp]; exact pyOfStored_nontag hnt
-        obtain ⟨v', h1, h2⟩ := ih lit vt0 v (by simpa [noTextual] using hn)
-          (fun p s hq => hpat p s (by simpa [patternOf] using hq)) hc' hvt hp'
+        obtain ⟨v', h1, h2⟩ := ih lit vt0 v (by simpa [noTextual] using hn) hc' hvt hp'
         have hleaf := pyOfStored_leaf hp
         have hvn : v ≠ .none := by
           intro h; subst h; exact hnull (pyOfStored_none_iff hp)
@@ -382,15 +358,14 @@ theorem check_valid (E : Ext) (C : CExt) (us : List CUnion) (env : Env) (hU : un
           withFlags_self]
         exact h1
   | alias n r t ih =>
-    intro lit vt v hn hpat hc hv hp
+    intro lit vt v hn hc hv hp
     simp only [validatorOf] at hv
     cases hvt : validatorOf t with
     | none => simp [hvt] at hv
     | some vt0 =>
       simp [hvt] at hv; subst hv
       rw [pyOfStored_alias] at hp
-      obtain ⟨v', h1, h2⟩ := ih lit vt0 v (by simpa [noTextual] using hn)
-        (fun p s hq => hpat p s (by simpa [patternOf] using hq)) (by simpa [check] using hc) hvt hp
+      obtain ⟨v', h1, h2⟩ := ih lit vt0 v (by simpa [noTextual] using hn) (by simpa [check] using hc) hvt hp
       exact ⟨v', by rw [validate_setRedact E env r vt0 v (pyOfStored_leaf hp)]; exact h1, h2⟩
 
 /-! ## from `fieldDefault` to `check` -/
@@ -400,6 +375,23 @@ theorem match_check_ok {r : CR Unit} {l d : Lit}
   cases r with
   | error e => simp [Except.map] at h
   | ok u => cases u; simp [Except.map] at h; exact ⟨rfl, h⟩
+
+/-- the literal passed `data_type.check` as written; the stored value (the literal, or the float an integer
+literal converts to) passes it too -/
+theorem check_coerced {E : Ext} {C : CExt} {us : List CUnion} {t : IrTy} {lit d : Lit}
+    (hc : check E C us t lit = .ok ()) (hd : coerceDefault E t lit = .ok d) : check E C us t d = .ok () := by
+  cases t <;> cases lit <;> simp [coerceDefault] at hd <;> (try (subst hd; exact hc))
+  all_goals simp [check, invalid] at hc
+  · -- `f Float = n`: the converted number is the one `check` has tested
+    rename_i cls mn mx n
+    cases hx : E.fltOfInt n with
+    | none => simp [hx, invalid] at hd
+    | some x =>
+      simp [hx] at hd hc
+      subst hd
+      split at hc
+      · simpa [check] using hc
+      · simp [invalid] at hc
 
 /-- what an accepted default went through: the coercion, `data_type.check` of the stored value, and the three
 refusals (nullable, alias of nullable, not a primitive / union) -/
@@ -421,13 +413,12 @@ theorem fieldDefault_ok {E : Ext} {C : CExt} {us : List CUnion} {t : IrTy} {lit 
         split at h
         · simp [invalid] at h
         · rename_i h2
-          cases hc : coerceDefault E t lit with
+          cases hc : check E C us t lit with
           | error e => simp [hc] at h
-          | ok d' =>
+          | ok u =>
+            cases u
             simp only [hc] at h
-            obtain ⟨h3, h4⟩ := match_check_ok h
-            subst h4
-            exact ⟨rfl, h3, hn, by simpa using h1, by simpa using h2, by simpa using h0⟩
+            exact ⟨h, check_coerced hc h, hn, by simpa using h1, by simpa using h2, by simpa using h0⟩
   cases t
   case void => simp [fieldDefault, invalid] at h
   case nullable => simp [fieldDefault, invalid] at h
